@@ -52,7 +52,10 @@ RULE_ADDED = (
               't. '
               ' '
               'Round 12: the request that runs into the repairing PIN change is of every comman'
-              'd. ')
+              'd. '
+              ' '
+              'Round 13: PIN files whose name is as long as the file system allows; as an ordin'
+              "ary user, a PIN file of one's own in a directory one cannot write to. ")
 RULE = RULE + " " + RULE_ADDED.strip()
 ASSUMPTIONS = [
     "simulated device keeps its PIN in a state file written before it acknowledges (its NVM)",
@@ -543,7 +546,7 @@ def gen_histories(spec, tmpdir):
                 cases.append({"platform": platform, "start": start, "link": link, "steps": [
                     {"platform": platform, "force": force}, {"platform": platform},
                     {"platform": platform, "force": True}, {"platform": platform}]})
-            for sp in ("dot", "double-slash", "through-a-symlinked-directory"):
+            for sp in ("dot", "double-slash", "through-a-symlinked-directory", "longest-name"):
                 cases.append({"platform": platform, "start": start, "spelling": sp, "steps": [
                     {"platform": platform, "force": force}, {"platform": platform},
                     {"platform": platform, "force": True}, {"platform": platform}]})
@@ -572,7 +575,8 @@ def gen_histories(spec, tmpdir):
         lk = rng.random() < 0.3
         cases.append({"platform": platform, "start": start, "steps": steps, "link": lk,
                       "spelling": None if lk or rng.random() < 0.7 else rng.choice(
-                          ["dot", "double-slash", "through-a-symlinked-directory"])})
+                          ["dot", "double-slash", "through-a-symlinked-directory",
+                           "longest-name"])})
     mine = [c for i, c in enumerate(cases) if i % spec["n"] == spec["shard"]]
     if not thorough:
         # quick: all in-process cases, crash cases limited per shard
@@ -603,10 +607,21 @@ def run_history(acc, case, tmpdir):
         decoy = os.path.join(tmpdir, "store2", "pin.txt")
         if os.path.lexists(decoy):
             os.unlink(decoy)
+    elif spelled == "longest-name":
+        # a file name as long as the file system takes (or nearly): nothing longer than it
+        # can be created next to it
+        import zlib
+        n_ = 255 - zlib.crc32(json.dumps(case["steps"], sort_keys=True).encode()) % 4
+        path = os.path.join(tmpdir, "p" * (n_ - 4) + ".txt")
+    if case.get("dir") == "not-writable":
+        # the PIN file is the user's, the directory it lives in is not (/etc/powhsm owned
+        # by root): the file can be rewritten, nothing can be created or removed beside it
+        path = os.path.join(case["_rodir"], "pin.txt")
+        acc.count("histories_with_a_pin_file_in_a_directory_that_is_not_writable")
     if spelled:
         acc.count("histories_with_a_pin_path_spelled_" + spelled.replace("-", "_"))
     for p in (path, devstate, real):
-        if os.path.lexists(p):
+        if os.path.lexists(p) and not (p == path and case.get("dir") == "not-writable"):
             os.unlink(p)
     if case.get("link"):
         # the configured PIN file is a symbolic link into another directory (a mounted
@@ -852,10 +867,13 @@ def unprivileged_histories(acc, spec):
                 {"platform": platform, "force": start == "forced"}, {"platform": platform},
                 {"platform": platform, "force": True}, {"platform": platform},
                 {"platform": platform, "force": True}, {"platform": platform}]})
-    envv = dict(os.environ, PYTHONHASHSEED="0", PYTHONDONTWRITEBYTECODE="1")
-    r = subprocess.run([sys.executable, "-m", "pv.props.c10", "--unprivileged",
-                        json.dumps(cases)], cwd=env.VERIF, env=envv, capture_output=True,
-                       timeout=600)
+        cases.append({"platform": platform, "start": "forced", "spelling": "longest-name",
+                      "steps": [{"platform": platform, "force": True}, {"platform": platform},
+                                {"platform": platform, "force": True}, {"platform": platform}]})
+        cases.append({"platform": platform, "start": "forced", "dir": "not-writable",
+                      "steps": [{"platform": platform, "force": True}, {"platform": platform},
+                                {"platform": platform, "force": True}, {"platform": platform}]})
+    r = _run_unprivileged(cases)
     try:
         res = json.loads(r.stdout.decode().strip().splitlines()[-1])
     except Exception:
@@ -863,10 +881,24 @@ def unprivileged_histories(acc, spec):
             r.returncode, r.stderr.decode(errors="replace")[-300:]))
         return
     acc.count("histories_run_without_root", res["histories"])
+    for k_, v_ in res.get("counters", {}).items():
+        acc.count(k_.replace("histories_with", "histories_without_root_with"), v_)
     acc.evaluations += res["evaluations"]
     for v in res["violations"]:
         acc.violation(v["mech"] + ":as-an-ordinary-user", v["detail"],
                       dict(v["case"] or {}, unprivileged=True))
+
+
+def _run_unprivileged(cases):
+    envv = dict(os.environ, PYTHONHASHSEED="0", PYTHONDONTWRITEBYTECODE="1")
+    base = tempfile.mkdtemp(prefix="pv-c10-root-owned-")
+    os.chmod(base, 0o755)
+    try:
+        return subprocess.run([sys.executable, "-m", "pv.props.c10", "--unprivileged",
+                               json.dumps(cases), base], cwd=env.VERIF, env=envv,
+                              capture_output=True, timeout=600)
+    finally:
+        shutil.rmtree(base, ignore_errors=True)
 
 
 def unprivileged_main(argv):
@@ -874,6 +906,16 @@ def unprivileged_main(argv):
     from ..run import Acc
     cases = json.loads(argv[0])
     env.setup()
+    for k_, case in enumerate(cases):
+        if case.get("dir") == "not-writable":
+            # (made while still root: root's directory, the user's file)
+            d_ = os.path.join(argv[1], "etc-powhsm-%d" % k_)
+            os.mkdir(d_, 0o755)
+            with open(os.path.join(d_, "pin.txt"), "wb") as f:
+                f.write(b"file5678")
+            os.chown(os.path.join(d_, "pin.txt"), 65534, 65534)
+            os.chmod(os.path.join(d_, "pin.txt"), 0o600)
+            case["_rodir"] = d_
     # (the interpreter lives under root's home in this sandbox: everything is imported by a
     # throw-away run before root is given up)
     warm = tempfile.mkdtemp(prefix="pv-c10-warm-")
@@ -892,6 +934,8 @@ def unprivileged_main(argv):
     finally:
         shutil.rmtree(tmpdir, ignore_errors=True)
     print(json.dumps({"histories": len(cases), "evaluations": acc.evaluations,
+                      "counters": {k: v for k, v in acc.counters.items()
+                                   if k.startswith("histories_with")},
                       "violations": acc.to_json()["violations"]}))
     return 0
 
@@ -913,10 +957,8 @@ def replay(case, acc):
 
 
 def unprivileged_histories_replay(acc, case):
-    envv = dict(os.environ, PYTHONHASHSEED="0", PYTHONDONTWRITEBYTECODE="1")
-    r = subprocess.run([sys.executable, "-m", "pv.props.c10", "--unprivileged",
-                        json.dumps([case])], cwd=env.VERIF, env=envv, capture_output=True,
-                       timeout=600)
+    case = {k: v for k, v in case.items() if k != "_rodir"}
+    r = _run_unprivileged([case])
     res = json.loads(r.stdout.decode().strip().splitlines()[-1])
     for v in res["violations"]:
         acc.violation(v["mech"] + ":as-an-ordinary-user", v["detail"], v["case"])
